@@ -28,6 +28,13 @@ def declared_names(c):
     return None
 
 
+@C.oracle('ksy_exports')
+def o_exports(src, why):
+    """a construct of the exportable fragment (the fixed list: the model exports each of them) must be exported"""
+    c, schema, why2 = exported(src)
+    return None if schema is not None else 'export_ksy fails (%s) for a construct of the exportable fragment' % why2
+
+
 @C.oracle('ksy_layout')
 def o_layout(src, data, kw):
     c, schema, why = exported(src)
@@ -264,6 +271,7 @@ FIXED = [
     'Struct("b"/BitStruct("a"/Octet, "w"/Bytewise(Padding(2)), "f"/Bytewise(Float32b), "g"/Bytewise(Int16sb)), "t"/Byte)',
     'Struct("b"/Bitwise(Struct("a"/Octet, "w"/Bytewise(Struct("p"/Flag, "q"/Int16sl, "r"/Bytes(2))))), "t"/Byte)',
     'Struct("b"/BitStruct("a"/Octet, "w"/Bytewise(Bytes(2)), "z"/Octet), "t"/Byte)',
+    'Struct("b"/BitStruct("a"/Octet, "w"/Bytewise(Flag), "p"/Bytewise(Padding(1)), "z"/Octet), "t"/Byte)',
     # identifiers are the member names as written (case, digits, underscores), also where a condition refers to them
     'Struct("Len"/Byte, "len"/Byte, "hasTail"/Byte, "Tail"/If(this.hasTail > 0, Byte), "X_1"/Bytes(this.Len % 4))',
     'Struct("Hdr"/Struct("Kind"/Byte, "kind"/Byte), "BODY"/Array(2, Struct("A"/Byte)), "z"/Byte)',
@@ -277,8 +285,8 @@ FIXED_VALUES = {
     11: dict(a=[dict(x=1, y=2), dict(x=3, y=4)], t=5), 12: dict(p=dict(x=1, r=b'zz'), t=5), 13: dict(l=4, s='ab', t=1), 14: dict(o=3, p=258, t=1),
     15: dict(s=b'ab', t=0, u=7), 16: dict(s=b'ab\x00', u=7), 17: dict(b=dict(a=9, c=1), t=3), 18: dict(b=dict(a=17, f=True, c=200), t=3),
     19: dict(b=dict(a=9, c=3, w=True, x=513), t=3), 20: dict(b=dict(a=9, f=1.5, g=-2), t=3), 21: dict(b=dict(a=9, w=dict(p=True, q=-2, r=b'xy')), t=3),
-    22: dict(b=dict(a=1, w=b'xy', z=2), t=3),
-    23: dict(Len=2, len=7, hasTail=1, Tail=9, X_1=b'ab'), 24: dict(Hdr=dict(Kind=1, kind=2), BODY=[dict(A=3), dict(A=4)], z=5),
+    22: dict(b=dict(a=1, w=b'xy', z=2), t=3), 23: dict(b=dict(a=1, w=True, z=2), t=3),
+    24: dict(Len=2, len=7, hasTail=1, Tail=9, X_1=b'ab'), 25: dict(Hdr=dict(Kind=1, kind=2), BODY=[dict(A=3), dict(A=4)], z=5),
 }
 
 
@@ -295,11 +303,12 @@ def run(tier, seed):
     cases = [dict(src=src, op='ksy_emit') for src in NOT_EXPORTABLE]
     for i, src in enumerate(FIXED):
         c, schema, why = exported(src)
+        cases.append(dict(src=src, op='ksy_emit'))          # the model exports every one of these: a refusal or a crash of export_ksy disagrees with it
         if schema is None:
             nrej += 1
+            acc.check('ksy_exports', src, why=why)
             continue
         nexp += 1
-        cases.append(dict(src=src, op='ksy_emit'))
         try:
             data = c.build(FIXED_VALUES[i])
         except Exception:
